@@ -128,10 +128,11 @@ def poles(bp):
     return [e for e in entities(bp) if geom.is_pole(e["name"])]
 
 
-def power_problems(bp, pole_name):
-    """C18 geometry: coverage by poles of the requested type, copper reach, one electric network."""
+def power_problems(bp, pole_name, relay_numbers=()):
+    """C18 geometry: coverage by poles of the requested type, copper reach, one electric network
+    (circuit relay poles, which need no electricity, are left out of the connectivity requirement)."""
     ents = entities(bp)
-    ps = [e for e in ents if geom.is_pole(e["name"])]
+    ps = [e for e in ents if geom.is_pole(e["name"]) and e["entity_number"] not in relay_numbers]
     typed = [e for e in ps if e["name"] == pole_name]
     bad = []
     r = geom.supply_radius(pole_name)
